@@ -165,6 +165,11 @@ func cmdCheck(args []string) int {
 	dir, _ := os.MkdirTemp("", "govc-")
 	defer os.RemoveAll(dir)
 	t2 := time.Now()
+	// obligations recorded as known findings are expected to stay undecided: no second chance for them
+	x.noRetry = map[string]bool{}
+	for _, k := range known.Findings {
+		x.noRetry[k.Obligation] = true
+	}
 	x.obls = x.solveAllSplit(x.obls, dir, timeout, agree, 16)
 	solveS := time.Since(t2).Seconds()
 
